@@ -1,5 +1,6 @@
 import GB.Base.Proto
 import GB.C07.Spec
+import GB.C07.Glue
 import GB.C19.Model
 /-
   C07 driver.  Line formats (byte strings hex `x…`; `l:` list = hex items joined by `,`;
@@ -121,7 +122,70 @@ def judgeReq (wire : Bool) (o : Opts) (its : List (Bytes × Bytes)) (mOut : MD) 
 def dropKeys (ks : List Bytes) (md : MD) : MD := md.filter (fun e => !ks.contains e.1)
 def infra : List Bytes := [ascii "Date", ascii "Content-Length"]
 
+/-! construction glue (`build`) -/
+
+/-- `p:w`, `b:d+l`, … ⇒ constructor call; forwarder 0 = the W-marker forwarder, 1 = the N-marker one -/
+def parseCtor (t : String) : Option Ctor :=
+  let (kc, extra) : String × List Opt := match t.splitOn "+" with
+    | [a, "l"] => (a, [.withLogger])
+    | _ => (t, [])
+  match kc.splitOn ":" with
+  | [k, c] =>
+    let kind? : Option Kind := if k == "p" then some .proxy else if k == "b" then some .bridge else none
+    let fw? : Option (List Opt) :=
+      if c == "w" then some [.withForwarder 0] else if c == "n" then some [.withForwarder 1]
+      else if c == "d" then some [] else none
+    match kind?, fw? with
+    | some kind, some fw => some { kind := kind, opts := extra ++ fw }
+    | _, _ => none
+  | _ => none
+
+def markerOf : Fwd → String
+  | .given 0 => "w"
+  | .given _ => "n"
+  | .fresh _ => "-"
+
+/-- judge one `c<i>.<entry>=<req>/<hdr>/<trl>` observation against the component's forwarder per the SPEC -/
+def judgeObs (seq : List Ctor) (tok : String) : String :=
+  match tok.splitOn "=" with
+  | [lhs, obs] =>
+    match lhs.splitOn ".", obs.splitOn "/" with
+    | [ci, entry], [rq, hd, tr] =>
+      match (ci.drop 1).toString.toNat? with
+      | none => "BAD component"
+      | some i =>
+        match seq[i]? with
+        | none => "BAD component index"
+        | some c =>
+          let f := specFwd i c                 -- = (build seq)[i] by C07_components_isolated
+          let m := markerOf f
+          let vis := if entry == "ws" then "-" else m
+          let all := rq ++ hd ++ tr
+          let foreign := all.toList.any (fun ch => ch != '-' && !m.toList.contains ch)
+          if m == "-" && foreign then s!"VIOL default-component-forwards {tok}: built without WithForwarder, yet markers crossed"
+          else if foreign then s!"VIOL foreign-forwarder {tok}: markers of another component's forwarder crossed"
+          else if rq != m || hd != vis || tr != vis then s!"DIFF model={lhs}={m}/{vis}/{vis}"
+          else ""
+    | _, _ => "BAD obs"
+  | _ => "BAD obs token"
+
 def handle : Handler
+  | ["build", seqS], outs =>
+    match (seqS.splitOn ",").mapM parseCtor with
+    | none => "BAD build seq"
+    | some seq =>
+      let verdicts := outs.map (judgeObs seq)
+      let expected := (seq.map (fun c => match c.kind with | .proxy => 1 | .bridge => 4)).foldl (· + ·) 0
+      match verdicts.find? (·.startsWith "VIOL"), verdicts.find? (·.startsWith "BAD"), verdicts.find? (·.startsWith "DIFF") with
+      | some v, _, _ => v
+      | none, some b, _ => b
+      | none, none, some d => d
+      | none, none, none =>
+        if outs.length != expected then s!"DIFF model=observations:{expected}"
+        else
+          let firstGiven := match seq with | c :: _ => (applyOpts c.opts).isSome | [] => false
+          let hasDefault := seq.any (fun c => (applyOpts c.opts).isNone)
+          s!"OK nt b=build-{seq.length}-{if firstGiven then "first-explicit" else "first-default"}-{if hasDefault then "with-default" else "all-explicit"}"
   | ["bin", hx], [out] =>
     match parseHex hx with
     | none => "BAD hex"
